@@ -42,7 +42,7 @@ MANIFEST = {
     'technique': 'machine-checked proof in Coq + exhaustive model/implementation verdict equality by vm_compute + exhaustive path execution',
 }
 
-HEADER = ('From Coq Require Import List Bool Arith.\n'
+HEADER = ('From Coq Require Import List Bool Arith NArith.\n'
           'From FpyV Require Import Lang.Defined Cases.C15Cases.\n'
           'Import ListNotations.\n'
           '(* abbreviations of the program printer (harness/props/c15.py, Render) *)\n'
@@ -55,13 +55,14 @@ HEADER = ('From Coq Require Import List Bool Arith.\n'
           'ATOMDEFS')
 
 KEY = 'for_target_defined_after_loop'
+KEY_RD = 'reaching_defs_drops_names_after_half_returning_if'
 
 U, V, P = 1, 2, 3          # names: locals u, v; the shared list parameter p
 FIRST_PARAM = 10           # b1.. / l1.. / n1.. get ids from here
 
 FULL = ['u=0', 'v=0', 'u=v', 'v=u', 'u=u', 'uv=01', 'uv=vu', 'ret u', 'ret v', 'ret 0', 'pass',
         'c_uvv', 'c_vuu', 'c_uuv', 'c_vvu']
-SMALL = ['u=0', 'v=u', 'ret u', 'ret v']
+SMALL = ['u=0', 'v=u', 'ret u', 'ret v', 'ret 0']
 NAME = {U: 'u', V: 'v'}
 
 # atom -> (python text, Coq statement, uses the list parameter p)
@@ -131,6 +132,35 @@ def blocks(n, depth, atoms, withs, memo):
             out.append(tuple(combo))
     memo[key] = out
     return out
+
+
+def always_returns(b):
+    """Every path through the block ends in a return (syntactically)."""
+    if not b:
+        return False
+    s = b[-1]
+    if s[0] == 'atom':
+        return s[1].startswith('ret')
+    if s[0] == 'if':
+        return always_returns(s[1]) and always_returns(s[2])
+    if s[0] == 'with':
+        return always_returns(s[2])
+    return False
+
+
+def has_half_returning_if(b):
+    """Some if/else has exactly one arm that always returns."""
+    for s in b:
+        if s[0] == 'if':
+            if always_returns(s[1]) != always_returns(s[2]) or has_half_returning_if(s[1]) or has_half_returning_if(s[2]):
+                return True
+        elif s[0] in ('if1', 'while'):
+            if has_half_returning_if(s[1]):
+                return True
+        elif s[0] in ('for', 'with'):
+            if has_half_returning_if(s[2]):
+                return True
+    return False
 
 
 def swap(b):
@@ -305,8 +335,9 @@ def coq_eval(ck, cases, check_fn, tag, shard=1200, block=100, jobs=8, timeout=15
         for bi in range(0, len(part), block):
             d = f'blk{bi // block}'
             defs.append(d)
-            body = ';\n'.join(f'({si + bi + j}, {c})' for j, c in enumerate(part[bi:bi + block]))
-            text.append(f'Definition {d} : list (nat * case15) := [\n{body}\n].')
+            # indices are binary numbers (a unary `nat` index costs its value to elaborate)
+            body = ';\n'.join(f'({si + bi + j}%N, {c})' for j, c in enumerate(part[bi:bi + block]))
+            text.append(f'Definition {d} : list (N * case15) := [\n{body}\n].')
         text.append('Definition bad := map fst (filter (fun ic => negb (' + check_fn + ' (snd ic))) (' + ' ++ '.join(defs) + ')).')
         text.append('Eval vm_compute in bad.')
         (ck.dir / f'{name}.v').write_text('\n'.join(text) + '\n')
@@ -318,13 +349,13 @@ def coq_eval(ck, cases, check_fn, tag, shard=1200, block=100, jobs=8, timeout=15
     bad, err = [], None
     for name in names:
         out = (ck.dir / f'{name}.out').read_text()
-        m = re.search(r'=\s*\[(.*?)\]\s*:\s*list nat', out, re.S)
+        m = re.search(r'=\s*\[(.*?)\]\s*:\s*list N', out, re.S)
         if 'FAIL' in out or not m:
             err = (err or '') + f'{name}: {out[-500:]}\n'
             continue
         body = m.group(1).strip()
         if body:
-            bad += [int(x.strip()) for x in body.split(';')]
+            bad += [int(x.replace('%N', '').strip()) for x in body.split(';')]
     ck.checker_cmds.append(f'coqc -Q coq FpyV build/{ck.pid}/{tag}_*.v  # {check_fn} on {len(cases)} cases')
     return sorted(bad), err
 
@@ -382,6 +413,8 @@ def run(ck):
             ck.count(f'programs-with-{n}-statements')
 
     full_n = 4 if thorough else 3
+    if os.environ.get('C15_FULL_N'):      # debugging aid: a smaller bound
+        full_n = int(os.environ['C15_FULL_N'])
     for n in range(1, full_n + 1):
         add_all(n, FULL, [None, U, V], True)
     add_all(full_n + 1, SMALL, [V], False)
@@ -473,5 +506,12 @@ def run(ck):
         r = rendered[i]
         rep = {'program': '\n'.join(r[0]), 'signature': r[1], 'failing_inputs': fails, 'failing_input_count': nfails}
         ck.count('accepted-programs-that-fail-to-run')
-        ck.violation('an accepted program reads an unbound name or falls off its end when called', rep,
-                     key=KEY if i in defect_class else None)
+        key = None
+        if i in defect_class:
+            key = KEY
+        elif has_half_returning_if(progs[i]) and all('KeyError' in why for _, why in fails):
+            # accepted rightly (the model agrees and proves it safe), but ReachingDefs / DefineUse,
+            # which the interpreter runs first, loses the names only the non-returning arm introduces
+            key = KEY_RD
+            ck.count('accepted-programs-that-fail-to-run:half-returning-if')
+        ck.violation('an accepted program reads an unbound name or falls off its end when called', rep, key=key)
